@@ -120,30 +120,56 @@ Fixpoint strip_prefix (r p : path) : option path :=
   | a :: r', b :: p' => if str_eqb a b then strip_prefix r' p' else None
   | _ :: _, [] => None
   end.
-Definition longest_first (roots : list path) : list path :=
-  (* sort(key=len, reverse=True), stable; nested roots differ in component count *)
-  fold_right (fun x acc =>
-    (fix ins l := match l with [] => [x] | y :: r => if Nat.ltb (length y) (length x) then x :: y :: r else y :: ins r end) acc)
-    [] roots.
 Fixpoint join_dot (l : list str) : str :=
   match l with [] => [] | [x] => x | x :: r => x ++ 46%N :: join_dot r end.
-Definition module_name (name_roots : list path) (fp : path) : option str :=
-  let fix first (rs : list path) :=
-    match rs with
-    | [] => None
-    | r :: rest => match strip_prefix r fp with
-                   | Some rel => match stem usecompiled (last rel []) with
-                                 | Some s => Some (join_dot (removelast rel ++ [s]))
-                                 | None => None end
-                   | None => first rest end
-    end in
-  first (longest_first name_roots).
+
+(* ---- search roots that carry a package: --package-path DIR PKG mounts DIR as package PKG ('' for --path/--test-path).
+   options.test_path = [(path, '')…] + [(dir, pkg)…]; a found file keeps the package of the root through which it was found
+   FIRST (find_test_files de-duplicates by path); find_suites names it after the longest prefix WITH THAT PACKAGE. ---- *)
+Definition proot := (path * str)%type.
+Definition found_root_pk (r : proot) : list (path * str) := map (fun p => (p, snd r)) (found_root (fst r)).
+Fixpoint dedup_pk (l : list (path * str)) (seen : list path) : list (path * str) :=
+  match l with
+  | [] => []
+  | (p, k) :: r => if existsb (path_eqb p) seen then dedup_pk r seen else (p, k) :: dedup_pk r (p :: seen)
+  end.
+Definition found_all_pk (walk_roots : list proot) : list (path * str) :=
+  dedup_pk (flat_map found_root_pk walk_roots) [].
+
+Fixpoint ins_pk (x : proot) (l : list proot) : list proot :=
+  match l with [] => [x] | y :: r => if Nat.ltb (length (fst y)) (length (fst x)) then x :: y :: r else y :: ins_pk x r end.
+Definition longest_first_pk (roots : list proot) : list proot := fold_right ins_pk [] roots.
+Definition with_pkg (k m : str) : str := match k with [] => m | _ => k ++ 46%N :: m end.
+(* the module name of file fp relative to root r: fpath.startswith(path + sep) — something is left below the root —
+   extension stripped, separators to dots, the root's package in front *)
+Definition name_under (r : proot) (fp : path) : option str :=
+  match strip_prefix (fst r) fp with
+  | Some (x :: rel') =>
+    let rel := x :: rel' in
+    match stem usecompiled (last rel []) with
+    | Some s => Some (with_pkg (snd r) (join_dot (removelast rel ++ [s])))
+    | None => None end
+  | _ => None
+  end.
+(* find_suites: the prefixes are tried longest first; one whose package is not the file's, or whose name --module
+   rejects, is passed over (`continue`), so a file below nested search paths may be loaded under a shorter prefix's name *)
+Fixpoint first_named (acc : str -> bool) (rs : list proot) (fp : path) (k : str) : option str :=
+  match rs with
+  | [] => None
+  | r :: rest => if str_eqb (snd r) k
+                 then match name_under r fp with
+                      | Some m => if acc m then Some m else first_named acc rest fp k
+                      | None => first_named acc rest fp k end
+                 else first_named acc rest fp k
+  end.
+Definition module_name_pk (name_roots : list proot) (fp : path) (k : str) : option str :=
+  first_named (fun _ => true) (longest_first_pk name_roots) fp k.
 
 Variable search : str -> str -> bool.
 (* modules handed to import_name, in order *)
-Definition imported (walk_roots name_roots : list path) (mpats : list str) : list (path * str) :=
-  flat_map (fun fp => match module_name name_roots fp with
-                      | Some m => if accept search mpats m then [(fp, m)] else []
+Definition imported_pk (walk_roots name_roots : list proot) (mpats : list str) : list (path * str) :=
+  flat_map (fun fk => match first_named (accept search mpats) (longest_first_pk name_roots) (fst fk) (snd fk) with
+                      | Some m => [(fst fk, m)]
                       | None => [] end)
-           (found_all walk_roots).
+           (found_all_pk walk_roots).
 End R.
